@@ -182,7 +182,7 @@ type Method struct {
 // Service is one service.
 type Service struct {
 	Name     string     `json:"name"`
-	Path     string     `json:"path,omitempty"` // HTTP base path
+	Path     string     `json:"path,omitempty"`  // HTTP base path
 	Paths    []string   `json:"paths,omitempty"` // further HTTP base paths (Path called more than once)
 	Errors   []ErrorDef `json:"errors,omitempty"`
 	HTTPErrs []Resp     `json:"http_errs,omitempty"`
